@@ -42,6 +42,14 @@ def obligations(tier):
                       ENCF, bounds=f"forall 4 int64 elements |x|<2**62 or NaT (any position), units ns/us/ms/s/D, shapes {shapes}",
                       outside="|x| >= 2**62: x - reference may wrap onto NaT", harness="harness/h_codec.py", func="time_ok",
                       params={"kind": kind, "shapes": shapes}, timeout=to))
+    for tc in ("IU2", "C*8"):
+        obs.append(Ob(f"C08.array.{tc.replace('*', '')}", "X", "image array entry: url, shape (as written in the header - independent of the number of byte ranges), dtype, byte ranges "
+                      "(tuples), type code survive encode_array -> preprocess -> json -> postprocess -> decode_array",
+                      ["ceos_alos2.sar_image.caching.encoders:encode_array", "ceos_alos2.sar_image.caching.encoders:preprocess",
+                       "ceos_alos2.sar_image.caching.decoders:decode_array", "ceos_alos2.sar_image.caching.decoders:postprocess"],
+                      bounds="forall lines, pixels >= 1 (also lines != number of byte ranges), 0<=s0<=e0<=s1<=e1, root strings |s|<=3, 3 protocols; rpc {1,2,3} x writer rpc {1,5}",
+                      harness="harness/h_cache.py", func="array_codec_ok", params={"rpcs": [1, 2, 3], "rpcs_w": [1, 5], "type_code": tc,
+                                                                                   "dtype": "uint16" if tc == "IU2" else "complex64"}, timeout=to))
     obs += [
         Ob("C08.ints", "X", "int64/int32/uint16/uint32/bool arrays and plain (nested) lists: same values, rank and kind; no float rounding at the int64 extremes; empty list",
            ENCF, bounds="forall int64 x0,x1, uint16 x2, uint32 x3, bools; ranks 0..2", harness="harness/h_codec.py", func="ints_ok", timeout=to),
